@@ -1,5 +1,6 @@
 import OdfModel.Gen.Dispatch
 import OdfModel.Drv.Util
+import OdfModel.Coord
 namespace Odf.Drv.PyT
 open Odf.PyT
 
@@ -13,6 +14,11 @@ def handle : List String → String
   | ["branch", t] => match decT t with
       | some t => "ok " ++ ((branchOf Odf.Gen.setValueAndTypeChain t).getD "none")
       | none => "bad-op"
+  | ["int", z] => match z.toInt? with
+    | some z => "ok " ++ Odf.Drv.encStr (Odf.Coord.intToStr z) ++ " " ++ (match Odf.Coord.parseInt (Odf.Coord.intToStr z) with
+        | some r => toString r
+        | none => "none")
+    | none => "bad-op"
   | _ => "bad-op"
 
 end Odf.Drv.PyT
